@@ -152,6 +152,23 @@ func c16CheckCSI(r *core.Result, b, e int64, m, d int, list bool) {
 var cigChars = "MIDNSHP=XB"
 
 func c16RandCigar(rng *rand.Rand) []oracle.CigOp {
+	if rng.Intn(40) == 0 {
+		// a reference span of 2^k + d, k in 29..33, built from operations of
+		// the maximum length: beyond the indexable range the specification's
+		// reg2bin still has a value (bin 0), and intermediate results must
+		// not be cut to 32 bits
+		span := 1<<uint(29+rng.Intn(5)) + []int{0, 1, -1, 2, 100, 16383, 16384, rng.Intn(1 << 20)}[rng.Intn(8)]
+		var c []oracle.CigOp
+		for span > 0 {
+			l := span
+			if l > 1<<28-1 {
+				l = 1<<28 - 1
+			}
+			c = append(c, oracle.CigOp{Op: []int{0, 2, 3, 7, 8}[rng.Intn(5)], Len: l})
+			span -= l
+		}
+		return c
+	}
 	n := rng.Intn(8)
 	if rng.Intn(20) == 0 {
 		n = rng.Intn(60)
@@ -286,7 +303,9 @@ func c16Record(r *core.Result, rng *rand.Rand, ref *sam.Reference) (nt bool) {
 		if l := rec.Len(); l != end-pos {
 			r.Violate("record|len", "%s: Len() = %d, End()-Start() = %d", desc(), l, end-pos)
 		}
-		if be <= 1<<29 {
+		{
+			// (positions are below 2^29; an end beyond the indexable range
+			// gives bin 0 by the specification's function)
 			want := oracle.SpecReg2bin(pos, be) // reg2bin(-1,0) = 4680 for unplaced reads
 			if got := rec.Bin(); got != want {
 				cls := "mapped"
